@@ -196,6 +196,9 @@ class Ctx:
         m = re.search(r"(Temporal properties were violated|Action property (\S+) is violated)", out)
         if m:
             res["violated"] = m.group(2) or "temporal"
+        m = re.search(r"The invariant of (\S+) is equal to FALSE", out)
+        if m and res["violated"] is None:
+            res["violated"] = m.group(1)
         if "is violated" in out and res["violated"] is None:
             res["violated"] = "unknown"
         finished = ("Model checking completed. No error has been found." in out) or \
@@ -340,7 +343,13 @@ def main_wrapper(pid, fn, level="model_checking"):
         fn(ctx)
         rc = ctx.finish()
     except Inconclusive as e:
-        rc = ctx.inconclusive(str(e))
+        if ctx.violations:
+            # violations already confirmed on real executions stand; the later machinery
+            # problem is recorded next to them
+            ctx.notes["inconclusive_after_violation"] = str(e)[:500]
+            rc = ctx.finish()
+        else:
+            rc = ctx.inconclusive(str(e))
     except subprocess.TimeoutExpired as e:
         rc = ctx.inconclusive("timeout: %s" % e)
     except BaseException as e:      # a crash of the machinery is never a verdict
